@@ -249,7 +249,136 @@ func backendCalls(fn *ssa.Function) []backendCall {
 // interface-signature index i maps to SSA index i+1 for methods with receivers).
 func argIsParam(arg ssa.Value, root *ssa.Function, idx int) bool {
 	i, r, ok := rootParam(arg)
+	if ok && r != root && root != nil {
+		// a parameter of a private helper that root (transitively) calls: it is
+		// root's parameter idx if every such call binds it to that parameter
+		i, r, ok = rootParam(resolveUp(arg, root, 3))
+	}
 	return ok && r == root && i == idx
+}
+
+// reachHelpers: root plus the private helpers statically reachable from root's
+// tree (closures included), to the given depth.
+func reachHelpers(root *ssa.Function, depth int) map[*ssa.Function]bool {
+	out := map[*ssa.Function]bool{root: true}
+	frontier := []*ssa.Function{root}
+	for d := 0; d < depth && len(frontier) > 0; d++ {
+		var next []*ssa.Function
+		for _, f := range frontier {
+			for _, g := range facts.WithAnon(f) {
+				for _, ci := range facts.CallsIn(g) {
+					h := ci.Common().StaticCallee()
+					if h == nil || out[h] || h.Blocks == nil || len(privateCallSites(h)) == 0 {
+						continue
+					}
+					if o := h.Origin(); o != nil {
+						h = o
+					}
+					out[h] = true
+					next = append(next, h)
+				}
+			}
+		}
+		frontier = next
+	}
+	return out
+}
+
+// resolveUp: if v denotes a parameter of a private helper reachable from root,
+// and every call of that helper made from root's tree (or from other such
+// helpers) binds the parameter to one and the same value, that value
+// (resolved further up); otherwise v.
+func resolveUp(v ssa.Value, root *ssa.Function, depth int) ssa.Value {
+	r := facts.ResolveFree(v)
+	p, ok := r.(*ssa.Parameter)
+	if !ok || depth <= 0 || root == nil {
+		return v
+	}
+	h := p.Parent()
+	if h == root || h.Parent() != nil {
+		return v
+	}
+	sites := privateCallSites(h)
+	if len(sites) == 0 {
+		return v
+	}
+	reach := reachHelpers(root, 3)
+	pi := -1
+	for i, q := range h.Params {
+		if q == p {
+			pi = i
+		}
+	}
+	var val ssa.Value
+	n := 0
+	for _, s := range sites {
+		if !reach[outermost(s.Parent())] || pi < 0 || pi >= len(s.Common().Args) {
+			continue
+		}
+		n++
+		a := facts.ResolveFree(resolveUp(s.Common().Args[pi], root, depth-1))
+		if val == nil {
+			val = a
+		} else if val != a {
+			return v
+		}
+	}
+	if n == 0 || val == nil {
+		return v
+	}
+	return val
+}
+
+// backendCallsDeep: backendCalls of fn and of the private helpers it reaches.
+func backendCallsDeep(fn *ssa.Function) []backendCall {
+	out := backendCalls(fn)
+	var hs []*ssa.Function
+	for h := range reachHelpers(fn, 2) {
+		if h != fn {
+			hs = append(hs, h)
+		}
+	}
+	sort.Slice(hs, func(i, j int) bool { return hs[i].String() < hs[j].String() })
+	for _, h := range hs {
+		out = append(out, backendCalls(h)...)
+	}
+	return out
+}
+
+// resultsReach: the results of call (made in fn or in a private helper fn
+// reaches) are what fn returns: some return of the function containing the
+// call returns them unchanged, and, if that function is a helper, fn (or the
+// helper in between) returns the helper call's results unchanged.
+func resultsReach(fn *ssa.Function, call *ssa.Call, depth int) bool {
+	in := call.Parent()
+	found := false
+	for _, r := range returnsOf(in) {
+		if resultsFromCall(r, call) {
+			found = true
+		}
+	}
+	if !found {
+		return false
+	}
+	if in == fn {
+		return true
+	}
+	if depth <= 0 || in.Parent() != nil {
+		return false
+	}
+	reach := reachHelpers(fn, 3)
+	n := 0
+	for _, site := range privateCallSites(in) {
+		if !reach[outermost(site.Parent())] {
+			continue
+		}
+		sc, ok := site.(*ssa.Call)
+		if !ok || !resultsReach(fn, sc, depth-1) {
+			return false
+		}
+		n++
+	}
+	return n > 0
 }
 
 func outermost(fn *ssa.Function) *ssa.Function {
@@ -674,4 +803,21 @@ func loadedGlobal(v ssa.Value) *ssa.Global {
 		return g
 	}
 	return nil
+}
+
+// withHelpers: fn, its function literals, and the private helpers it reaches
+// (with their literals) — the code that a refactoring may have split fn into.
+func withHelpers(fn *ssa.Function) []*ssa.Function {
+	var hs []*ssa.Function
+	for h := range reachHelpers(fn, 2) {
+		if h != fn {
+			hs = append(hs, h)
+		}
+	}
+	sort.Slice(hs, func(i, j int) bool { return hs[i].String() < hs[j].String() })
+	out := facts.WithAnon(fn)
+	for _, h := range hs {
+		out = append(out, facts.WithAnon(h)...)
+	}
+	return out
 }
